@@ -1,62 +1,127 @@
 package main
 
-// Scheduling-jitter monitor: a goroutine sleeps 5 ms in a loop and records by how much each sleep
-// overshoots.  On a quiet machine the overshoot is far below a millisecond; under CPU starvation it
-// reaches tens of milliseconds, and then measured durations say nothing about the code under test.
-// Every case records the largest overshoot seen while it ran (jitter_ms), which the check uses to
-// scale the scheduling slack of duration comparisons and to decide whether a re-run is conclusive.
+// Load monitors.  Measured durations (and, with short timeouts, even outcomes) say nothing about the
+// code under test while the machine starves the process of CPU, so every case records how bad it was
+// while it ran:
+//   jitter_ms     a goroutine sleeps 5 ms in a loop; the largest overshoot of a sleep (wake-up latency)
+//   cpu_slowdown  a thread-locked goroutine burns 2 ms of its own CPU time every 15 ms; wall time / CPU
+//                 time of the slowest burn (1.0 on a quiet machine, 4 when four runnable threads share
+//                 each core) -- the scheduler serves sleepers promptly even when CPU-bound work crawls,
+//                 so the first number alone underestimates starvation of TLS / JSON / 2 MB bodies
+// The check scales the scheduling slack of its duration comparisons with them and uses them to decide
+// whether a re-run happened in a quiet window.
 
 import (
+	"runtime"
 	"sort"
 	"sync"
+	"syscall"
 	"time"
 )
 
-type jitterSample struct {
+type loadSample struct {
 	at time.Time
-	ms float64
+	v  float64
+}
+
+type loadSeries struct {
+	mu      sync.Mutex
+	samples []loadSample
+	started time.Time
+}
+
+func (s *loadSeries) add(v float64) {
+	s.mu.Lock()
+	s.samples = append(s.samples, loadSample{time.Now(), v})
+	s.mu.Unlock()
+}
+
+// maxBetween: the largest sample that ended in [from - pad, to + pad]; if the monitor produced nothing
+// in that window although it should have, it was starved itself: then `starved(gap)` says what that means.
+func (s *loadSeries) maxBetween(from, to time.Time, pad, period time.Duration, starved func(gap time.Duration) float64) float64 {
+	from, to = from.Add(-pad), to.Add(pad)
+	s.mu.Lock()
+	defer s.mu.Unlock()
+	i := sort.Search(len(s.samples), func(i int) bool { return !s.samples[i].at.Before(from) })
+	max := 0.0
+	last := s.started
+	if i > 0 {
+		last = s.samples[i-1].at
+	}
+	for ; i < len(s.samples) && !s.samples[i].at.After(to); i++ {
+		if s.samples[i].v > max {
+			max = s.samples[i].v
+		}
+		last = s.samples[i].at
+	}
+	if last.Before(from) {
+		last = from
+	}
+	if gap := to.Sub(last) - pad - 3*period; gap > 0 { // nothing for much longer than a period before the window's end
+		if v := starved(gap); v > max {
+			max = v
+		}
+	}
+	return max
 }
 
 var (
-	jitterMu      sync.Mutex
-	jitterSamples []jitterSample
-	jitterOnce    sync.Once
+	jitterSeries, slowSeries loadSeries
+	loadOnce                 sync.Once
 )
 
+func threadCPU() time.Duration {
+	var ru syscall.Rusage
+	if err := syscall.Getrusage(1 /* RUSAGE_THREAD */, &ru); err != nil {
+		return 0
+	}
+	return time.Duration(ru.Utime.Nano() + ru.Stime.Nano())
+}
+
 func startJitterMonitor() {
-	jitterOnce.Do(func() {
+	loadOnce.Do(func() {
+		now := time.Now()
+		jitterSeries.started, slowSeries.started = now, now
 		go func() {
 			const period = 5 * time.Millisecond
 			for {
 				t0 := time.Now()
 				time.Sleep(period)
-				now := time.Now()
-				over := float64(now.Sub(t0)-period) / float64(time.Millisecond)
-				jitterMu.Lock()
-				jitterSamples = append(jitterSamples, jitterSample{now, over})
-				jitterMu.Unlock()
+				jitterSeries.add(float64(time.Since(t0)-period) / float64(time.Millisecond))
+			}
+		}()
+		go func() {
+			runtime.LockOSThread()
+			const burn = 2 * time.Millisecond
+			x := uint64(1)
+			for {
+				c0, w0 := threadCPU(), time.Now()
+				for threadCPU()-c0 < burn {
+					for k := 0; k < 20000; k++ {
+						x = x*6364136223846793005 + 1442695040888963407
+					}
+				}
+				cpu, wall := threadCPU()-c0, time.Since(w0)
+				if cpu > 0 {
+					slowSeries.add(float64(wall) / float64(cpu))
+				}
+				if x == 42 {
+					runtime.Gosched()
+				}
+				time.Sleep(15 * time.Millisecond)
 			}
 		}()
 	})
 }
 
-// jitterBetween returns the largest overshoot of a sample that ended in [from - 10 ms, to + 10 ms].
-func jitterBetween(from, to time.Time) float64 {
-	from, to = from.Add(-10*time.Millisecond), to.Add(10*time.Millisecond)
-	jitterMu.Lock()
-	defer jitterMu.Unlock()
-	i := sort.Search(len(jitterSamples), func(i int) bool { return !jitterSamples[i].at.Before(from) })
-	max := 0.0
-	for ; i < len(jitterSamples) && !jitterSamples[i].at.After(to); i++ {
-		if jitterSamples[i].ms > max {
-			max = jitterSamples[i].ms
-		}
+// loadBetween returns (jitter_ms, cpu_slowdown) for a case that ran from `from` to `to`.
+func loadBetween(from, to time.Time) (float64, float64) {
+	j := jitterSeries.maxBetween(from, to, 10*time.Millisecond, 5*time.Millisecond,
+		func(gap time.Duration) float64 { return float64(gap) / float64(time.Millisecond) })
+	s := slowSeries.maxBetween(from, to, 25*time.Millisecond, 20*time.Millisecond,
+		func(gap time.Duration) float64 { return 1 + float64(gap)/float64(2*time.Millisecond) })
+	if s < 1 {
+		s = 1
 	}
-	// a sample still in flight (the monitor itself is starved) counts with its age
-	if n := len(jitterSamples); n > 0 {
-		if age := float64(to.Sub(jitterSamples[n-1].at)-15*time.Millisecond) / float64(time.Millisecond); age > max && !jitterSamples[n-1].at.After(to) {
-			max = age
-		}
-	}
-	return max
+	return j, s
 }
